@@ -23,9 +23,9 @@ import (
 
 	v2 "mosn.io/mosn/pkg/config/v2"
 	_ "mosn.io/mosn/pkg/filter/network/streamproxy"
+	"mosn.io/mosn/pkg/server"
 	"mosn.io/mosn/pkg/types"
 	_ "mosn.io/mosn/pkg/upstream/cluster"
-	"mosn.io/mosn/pkg/server"
 	tmosn "mosn.io/mosn/test/util/mosn"
 
 	"verif/harness/lab"
